@@ -39,6 +39,50 @@ theorem publicXoToKeyIdx_spec (keys : List KeyRec) (i : Nat) (hi : i < keys.leng
   · have := List.findIdx_getElem (w := hlt)
     simpa [p] using this
 
+/-! ### the per-template lookups of sign_tx / pkscr_to_key_idx (/repo ebf80672) -/
+
+theorem firstIdx_spec (p : KeyRec → Bool) (keys : List KeyRec) (i : Nat) (hi : i < keys.length) (hp : p keys[i] = true) :
+    ∃ j, ∃ hj : j < keys.length, j ≤ i ∧
+      (if keys.findIdx p < keys.length then some (keys.findIdx p) else none) = some j ∧ p keys[j] = true := by
+  have hle := findIdx_le_of_pred p keys i hi hp
+  have hlt : keys.findIdx p < keys.length := by omega
+  exact ⟨keys.findIdx p, hlt, hle, by rw [if_pos hlt], List.findIdx_getElem (w := hlt)⟩
+
+theorem firstIdx_sound (p : KeyRec → Bool) (keys : List KeyRec) (j : Nat)
+    (e : (if keys.findIdx p < keys.length then some (keys.findIdx p) else none) = some j) :
+    ∃ hj : j < keys.length, p keys[j] = true ∧ ∀ k (hk : k < j), p (keys[k]'(by omega)) = false := by
+  split at e
+  · rename_i hlt
+    cases e
+    refine ⟨hlt, List.findIdx_getElem (w := hlt), fun k hk => ?_⟩
+    have := List.not_of_lt_findIdx hk
+    simpa using this
+  · cases e
+
+theorem pubhashToKeyIdx_spec (keys : List KeyRec) (i : Nat) (hi : i < keys.length) :
+    ∃ j, ∃ hj : j < keys.length, j ≤ i ∧ pubhashToKeyIdx keys keys[i].h160 = some j ∧ keys[j].h160 = keys[i].h160 := by
+  obtain ⟨j, hj, hle, e, hp⟩ := firstIdx_spec (fun k => k.h160 == keys[i].h160) keys i hi (by simp)
+  exact ⟨j, hj, hle, e, by simpa using hp⟩
+
+theorem scripthashToKeyIdx_spec (C : WalletCrypto) (c : Config) (keys : List KeyRec) (i : Nat) (hi : i < keys.length)
+    (hm : bech32Mode c.atype = false) :
+    ∃ j, ∃ hj : j < keys.length, j ≤ i ∧
+      scripthashToKeyIdx C c keys (C.hash160 ([0, 20] ++ keys[i].h160)) = some j ∧
+      C.hash160 ([0, 20] ++ keys[j].h160) = C.hash160 ([0, 20] ++ keys[i].h160) := by
+  obtain ⟨j, hj, hle, e, hp⟩ := firstIdx_spec
+    (fun k => !bech32Mode c.atype && C.hash160 ([0, 20] ++ k.h160) == C.hash160 ([0, 20] ++ keys[i].h160)) keys i hi (by simp [hm])
+  exact ⟨j, hj, hle, e, by simpa [hm] using hp⟩
+
+theorem scripthashToKeyIdx_bech32 (C : WalletCrypto) (c : Config) (keys : List KeyRec) (h : Bytes)
+    (hm : bech32Mode c.atype = true) : scripthashToKeyIdx C c keys h = none := by
+  unfold scripthashToKeyIdx
+  have : keys.findIdx (fun k => !bech32Mode c.atype && C.hash160 ([0, 20] ++ k.h160) == h) = keys.length := by
+    apply List.findIdx_eq_length.mpr
+    intro x _
+    simp [hm]
+  show (if _ < _ then _ else _) = none
+  rw [this, if_neg (Nat.lt_irrefl _)]
+
 /-- the configuration checks hand on exactly the password `getpass` returned -/
 theorem makeWalletPre_pass (c : Config) (gp : Option Bytes) (path : Option (List Nat × Bytes × Bool)) (p0 : Bytes)
     (h : makeWalletPre c gp = .ok (path, p0)) : gp = some p0 := by
